@@ -1,4 +1,5 @@
-"""C06 — one row per input timestamp (index-provenance clause only)."""
+"""C06 — one row per input timestamp: index provenance of predict()'s result, and the clock-normalisation step decided
+exhaustively over every day shape of the IANA database (rules/dstnorm.py)."""
 from __future__ import annotations
 
 import ast
@@ -19,12 +20,20 @@ def run(chk):
         "returns `concat([kept.join(pred), dropped]).sort_index()` with a left join and no row-changing operation afterwards; billing "
         "without aggregation hands that frame through unchanged; CalTRACK — column-wise concat on the data frame's own index; the hourly "
         "data class builds a contiguous hourly index from first day 00:00 to last day 23:00 and reindexes onto it.")
-    chk.not_decided += ["the DST slot arithmetic of _get_dst_indices / _transform_dst / correct_dst (index computations over runtime calendars)",
-                        "behaviour in every IANA zone; finiteness of predictions", "that len(y_predict) equals the number of rows (runtime)"]
+    chk.explanation += (
+        "  Clock normalisation (R06.5): _get_dst_indices, correct_dst and _transform_dst are interpreted from their AST over an abstract hourly "
+        "frame whose days range over every distinct day shape of the tz database 2000-2037 (spec/dst_day_shapes.json: 36 shapes of 21..27 stamps, "
+        "with the localisability of the day's bounds) at the first / an inner / the last position of the span and over all ordered pairs of "
+        "one-hour transitions; values are provenance vectors, so the verdict is which model slot feeds which timestamp.")
+    from rules.dstnorm import PANDAS_FACTS
+    chk.trusted += PANDAS_FACTS
+    chk.not_decided += ["finiteness of the numbers the fitted model produces for a slot (only that every timestamp is fed by a slot)",
+                        "zones' rules outside the tz database of the machine that generated spec/dst_day_shapes.json; grids that are not hourly"]
     r1 = chk.rule("R06.1", "hourly: predict returns X.reindex(I) where I is the index of the data object's own frame", 3)
     r2 = chk.rule("R06.2", "daily/billing: result = concat([kept left-joined with predictions, dropped complement]).sort_index(); no row-changing step afterwards; unaggregated billing passes it through", 8)
     r3 = chk.rule("R06.3", "hourly data class: contiguous hourly index from first day 00:00 to last day 23:00, frame reindexed onto it", 4)
     r4 = chk.rule("R06.4", "CalTRACK wrapper: prediction joined column-wise onto the data frame's own index", 2)
+    r5 = chk.rule("R06.5", "clock normalisation: for every day shape x position, no helper raises, every day gets 24 slots, one value per timestamp, no value shifted, none empty", 2)
 
     # ------------------------------------------------------------------ R06.1
     hm = chk.repo.cls(*HOURLY_MODEL)
@@ -136,6 +145,10 @@ def run(chk):
     # ------------------------------------------------------------------ R06.3
     from rules.hourlyframe import check_contiguous_index
     check_contiguous_index(chk, r3)
+
+    # ------------------------------------------------------------------ R06.5
+    from rules.dstnorm import check_dst_normalisation
+    check_dst_normalisation(chk, r5)
 
     # ------------------------------------------------------------------ R06.4
     cw = chk.repo.cls(*CALTRACK_WRAPPER)
